@@ -9,7 +9,47 @@ var trSrc = behave.TrSrc
 // in-process type checker from memory.
 func Shared() map[string]string {
 	return map[string]string{
+		"ext/dep/dep.go": `package dep
+
+// A package that setup files never import themselves: its types are only reached through members of ext types.
+type Dur int64
+type Mon int
+`,
 		"ext/ext.go": `package ext
+
+import "example.com/m/ext/dep"
+
+// Tm / Tm2: same members, different types - copied member by member; the element types come from a package the
+// setup file does not import (dep) and include channel, func and map types.
+type Tm struct {
+	Ds []dep.Dur
+	Cs []chan Item
+	Rs []<-chan Item
+	Fs []func(Item) dep.Dur
+	Ms []map[dep.Mon]*Item
+	D  dep.Dur
+}
+
+type Tm2 struct {
+	Ds []dep.Dur
+	Cs []chan Item
+	Rs []<-chan Item
+	Fs []func(Item) dep.Dur
+	Ms []map[dep.Mon]*Item
+	D  dep.Dur
+}
+
+// Anon2 nests anonymous structs two levels deep; the deeper level has an unexported member.
+type Anon2 struct {
+	Spec struct {
+		Net struct {
+			Port int
+			port int
+		}
+		rev int
+		Rev int
+	}
+}
 
 type EInt int
 type EStr string
@@ -108,9 +148,16 @@ type Status int
 `,
 		"ext/other/ext.go": `package ext
 
+import base "example.com/m/ext"
+
 // A second package whose base name is also "ext".
 type O struct{ A int }
 type OInt int
+
+// Same function name as ext.HookSD / ext.Itoa in a package that is ALSO called ext: only an alias tells them apart.
+func Itoa(i int) string { return "other" }
+
+func HookSD(d *base.D, s *base.S) {}
 `,
 	}
 }
